@@ -53,7 +53,7 @@ def confirm(pid, x):
         os.makedirs(dst, exist_ok=True)
         # keep the patch as it applies to the current /repo HEAD
         sh(f"git apply {patch} || git apply -3 {patch}", cwd=SCRATCH)
-        rc, diff = sh("git diff", cwd=SCRATCH)
+        rc, diff = sh("git diff HEAD", cwd=SCRATCH)
         open(os.path.join(dst, "patch.diff"), "w").write(diff)
         sh("git checkout -- . ; git reset -q --hard", cwd=SCRATCH)
         shutil.copy(demo, os.path.join(dst, "demo.rs"))
